@@ -36,7 +36,7 @@ theorem roundUs_shift {a b : Int} (h : (a - b) % 10 = 0) (hb : b % 10 ≠ 5) :
 /-! ### the constructor -/
 
 theorem mk_ok {cfg : Cfg} {env : Env} {sc : Nat} {d s : Int} {x : Date} (h : mk cfg env sc d s = .ok x) :
-    ∃ eop off, (eopGet env (d * D + s)).value = some eop ∧ offset cfg env sc cfg.ref (d * D + s) eop = .ok off ∧
+    ∃ eop off, eopFor cfg env sc (d * D + s) = .ok eop ∧ offset cfg env sc cfg.ref (d * D + s) eop = .ok off ∧
       x = ⟨d + (s + off) / D, (s + off) % D, off, sc, eop⟩ := by
   unfold mk at h
   simp only at h
@@ -50,6 +50,67 @@ theorem mk_ok {cfg : Cfg} {env : Env} {sc : Nat} {d s : Int} {x : Date} (h : mk 
       simp only [normalise] at h
       cases h; rfl
 
+/-- which record `eopFor` returns: the one found at the date's own clock reading `num` for a UTC date or when the UTC
+reading computed with that record, `num + offset(scale→UTC)`, has the same day number; otherwise the one found at
+that UTC reading -/
+theorem eopFor_spec {cfg : Cfg} {env : Env} {sc : Nat} {num : Int} {eop : Eop} (h : eopFor cfg env sc num = .ok eop) :
+    ∃ eop0, (eopGet env num).value = some eop0 ∧
+      ((sc = cfg.utc ∧ eop = eop0) ∨
+       (sc ≠ cfg.utc ∧ ∃ offU, offset cfg env sc cfg.utc num eop0 = .ok offU ∧
+          ((Int.tdiv (num + offU) D = Int.tdiv num D ∧ eop = eop0) ∨
+           (Int.tdiv (num + offU) D ≠ Int.tdiv num D ∧ (eopGet env (num + offU)).value = some eop)))) := by
+  unfold eopFor at h
+  split at h
+  · cases h
+  · next eop0 h0 =>
+    refine ⟨eop0, h0, ?_⟩
+    split at h
+    · next hu => left; exact ⟨hu, by cases h; rfl⟩
+    · next hu =>
+      right
+      refine ⟨hu, ?_⟩
+      split at h
+      · cases h
+      · next offU ho =>
+        refine ⟨offU, ho, ?_⟩
+        split at h
+        · next hd =>
+          right
+          refine ⟨hd, ?_⟩
+          split at h
+          · cases h
+          · next e he => cases h; exact he
+        · next hd =>
+          left
+          exact ⟨by simpa using hd, by cases h; rfl⟩
+
+/-- two clock readings of the same day, with the same leap-second entry in force, find the same record -/
+theorem eopRaw_same_day {env : Env} {n m : Int} (hd : Int.tdiv n D = Int.tdiv m D)
+    (hl : taiUtcAt env.leap n = taiUtcAt env.leap m) : eopRaw env n = eopRaw env m := by
+  unfold eopRaw; rw [hd, hl]
+
+/-- **the record of a date is the one tabulated for its UTC reading** (first-guess UTC reading `num + offset(scale→UTC)`
+computed with the record of the label day): whenever both readings are covered by the tables and the same
+leap-second entry is in force at both (no leap second in between) -/
+theorem eopFor_record {cfg : Cfg} {env : Env} {sc : Nat} {num offU : Int} {eop e0 eU : Eop}
+    (h : eopFor cfg env sc num = .ok eop) (h0 : eopRaw env num = some e0)
+    (ho : offset cfg env sc cfg.utc num e0 = .ok offU) (hU : eopRaw env (num + offU) = some eU)
+    (hl : taiUtcAt env.leap (num + offU) = taiUtcAt env.leap num) (hs : sc ≠ cfg.utc) : eop = eU := by
+  obtain ⟨eop0, hv, hc⟩ := eopFor_spec h
+  have hv0 : eop0 = e0 := by
+    simp only [eopGet, h0, EopRes.value, Option.some.injEq] at hv; exact hv.symm
+  subst hv0
+  rcases hc with ⟨hu, _⟩ | ⟨_, offU', ho', hc⟩
+  · exact (hs hu).elim
+  · rw [ho] at ho'
+    have : offU' = offU := (Except.ok.inj ho').symm
+    subst this
+    rcases hc with ⟨hd, he⟩ | ⟨_, he⟩
+    · have := eopRaw_same_day (env := env) hd hl
+      rw [hU, h0] at this
+      rw [he]; exact (Option.some.inj this).symm
+    · simp only [eopGet, hU, EopRes.value, Option.some.injEq] at he; exact he.symm
+
 /-- a date as the constructor leaves it: seconds of day in range, `_offset` is the offset of its scale to the
 reference scale for its own EOP record (at some `mjd`) -/
 structure WF (cfg : Cfg) (env : Env) (x : Date) : Prop where
@@ -58,7 +119,7 @@ structure WF (cfg : Cfg) (env : Env) (x : Date) : Prop where
   off_eq : ∃ num, offset cfg env x.scale cfg.ref num x.eop = .ok x.off
 
 theorem mk_spec {cfg : Cfg} {env : Env} {sc : Nat} {d s : Int} {x : Date} (h : mk cfg env sc d s = .ok x) :
-    WF cfg env x ∧ x.scale = sc ∧ x.inst = d * D + s + x.off ∧ (eopGet env (d * D + s)).value = some x.eop := by
+    WF cfg env x ∧ x.scale = sc ∧ x.inst = d * D + s + x.off ∧ eopFor cfg env sc (d * D + s) = .ok x.eop := by
   obtain ⟨eop, off, he, ho, rfl⟩ := mk_ok h
   refine ⟨⟨?_, ?_, ⟨_, ho⟩⟩, rfl, ?_, he⟩
   · exact Int.emod_nonneg _ (by decide)
